@@ -82,7 +82,7 @@ theorem fftshift_dft1 (n : ℕ) (hn : 0 < n) (g : ℤ → ℂ) (k : ℤ) :
   have h1 := sum_range_shift_int n (fun z => E n ((z - (n : ℤ) / 2) * (k - (n : ℤ) / 2)) * g (z % n)) hper (-((n : ℤ) / 2))
   have h2 : ∑ x ∈ range n, ker (1 / n) n n 0 0 x k * g x
       = ∑ i ∈ range n, E n (((i : ℤ) - (n : ℤ) / 2) * (k - (n : ℤ) / 2)) * g ((i : ℤ) % n) :=
-    sum_congr rfl fun i hi => by rw [ker_centered_eq, emod_range n i hi]
+    sum_congr rfl fun i hi => by rw [ker_centered_eq, emod_range_nat n i hi]
   rw [h2, ← h1]
   refine sum_congr rfl fun a _ => ?_
   simp only [fker_eq]
@@ -104,11 +104,11 @@ grid, at every index, for even and odd sizes -/
 theorem fftPath_eq_dft2 (x : Arr ℂ) (S0 S1 : ℕ) (h0 : x.s0 = S0) (h1 : x.s1 = S1) (hS0 : 0 < S0) (hS1 : 0 < S1) (k l : ℤ) :
     (fftPath (R := ℝ) x).get k l = (dft2 x (1 / (S0 : ℝ)) (1 / (S1 : ℝ)) S0 S1 0 0 0 0 true).get k l := by
   have hL : (fftPath (R := ℝ) x).get k l
-      = (fft2ortho (R := ℝ) ⟨x.s0, x.s1, fun i j => x.get (ifftshiftIdx x.s0 i) (ifftshiftIdx x.s1 j)⟩).get
-          (fftshiftIdx x.s0 k) (fftshiftIdx x.s1 l) := rfl
-  rw [hL, fft2ortho_get_eq ⟨x.s0, x.s1, fun i j => x.get (ifftshiftIdx x.s0 i) (ifftshiftIdx x.s1 j)⟩ S0 S1 h0 h1,
+      = (fft2ortho (R := ℝ) ⟨x.s0, x.s1, fun i j => x.get (ifftshiftIdxE x.s0 i) (ifftshiftIdxE x.s1 j)⟩).get
+          (fftshiftIdxE x.s0 k) (fftshiftIdxE x.s1 l) := rfl
+  rw [hL, fft2ortho_get_eq ⟨x.s0, x.s1, fun i j => x.get (ifftshiftIdxE x.s0 i) (ifftshiftIdxE x.s1 j)⟩ S0 S1 h0 h1,
     dft2_get_eq]
-  simp only [if_true, dft2Sum, h0, h1, Int.toNat_natCast, ifftshiftIdx, fftshiftIdx]
+  simp only [if_true, dft2Sum, h0, h1, Int.toNat_natCast, ifftshiftIdxE, fftshiftIdxE]
   congr 1
   have inner : ∀ b : ℕ, ∑ a ∈ range S0, fker S0 a ((k + ((S0 : ℤ) - (S0 : ℤ) / 2)) % S0)
         * x.get (((a : ℤ) + (S0 : ℤ) / 2) % S0) (((b : ℤ) + (S1 : ℤ) / 2) % S1)
